@@ -190,7 +190,40 @@ def run(chk, prog):
            "(%d C07 obligations G4, G8 re-checked)" % no, "src/TaskBasedRadiationHydrodynamicsSimulation.cpp")
     chk.floor("F6", no, 1000)
 
-    # F7 / F8: the reflecting-wall clause as far as it is algebra (c04_wall.py): the ghost state is the mirror image, and
+    # F9: the equal-and-opposite updates only add up if nothing in the flux phase but the accumulations themselves touches the
+    # accumulators (C10 rule S5 re-checked for the flux phase): a sweep that resets them wipes the half of an exchange that
+    # an earlier sweep has deposited
+    from . import c10_commute
+    sub5 = Check("C10", "embedded", "other")
+    c10_commute.rule_S5(sub5, prog.library())
+    n9 = 0
+    for o in sub5.obligations:
+        if o["rule"] == "S5" and "flux phase" in o["instance"]:
+            n9 += 1
+            if o["verdict"] == "VIOLATED":
+                chk.fail("F9-S5", o["instance"], o["where"], o["detail"], function=o.get("function", ""),
+                         construct=o.get("construct", ""))
+    chk.ok("F9", "within the flux phase the accumulators are only accumulated into (%d C10 obligations S5 re-checked)" % n9,
+           "src/HydroDensitySubGrid.hpp")
+    chk.floor("F9", n9, 4)
+    # F9: the equal-and-opposite updates only add up if nothing in the flux phase but the accumulations themselves touches the
+    # accumulators (C10 rule S5 re-checked for the flux phase): a sweep that resets them wipes the half of an exchange that
+    # an earlier sweep has deposited
+    from . import c10_commute
+    sub5 = Check("C10", "embedded", "other")
+    c10_commute.rule_S5(sub5, prog.library())
+    n9 = 0
+    for o in sub5.obligations:
+        if o["rule"] == "S5" and "flux phase" in o["instance"]:
+            n9 += 1
+            if o["verdict"] == "VIOLATED":
+                chk.fail("F9-S5", o["instance"], o["where"], o["detail"], function=o.get("function", ""),
+                         construct=o.get("construct", ""))
+    chk.ok("F9", "within the flux phase the accumulators are only accumulated into (%d C10 obligations S5 re-checked)" % n9,
+           "src/HydroDensitySubGrid.hpp")
+    chk.floor("F9", n9, 4)
+    # F7 / F8: the reflecting-wall clause as far as it is algebra (c04_wall.py)
+    # the ghost state is the mirror image, and
     # for a mirror pair the HLLC mass and energy flux vanish on every branch reachable with a wall-normal Mach number
     # in [0, 1.5] for gamma in (1, 2]
     from . import c04_wall
